@@ -43,6 +43,7 @@ REQUIRED_REACH = [
 ]
 
 ENTRIES = ("string", "with_emitter", "assemble", "patch", "cli")
+SLOTS_PER_CLASS = int(__import__("os").environ.get("VERIF_C14_SLOTS", "10"))
 FILE_ENTRIES = ("with_emitter", "assemble", "patch", "cli")
 
 # ---------------------------------------------------------------------------
@@ -58,6 +59,20 @@ ERROR_CLASSES: dict[str, dict[str, Any]] = {
     "unclosed_brace": {"scope": "parse", "text": "{"},
     "sharp_at_end_of_input": {"scope": "parse", "text": "lda #", "last_only": True},
     "missing_include": {"scope": "parse", "text": ".include 'missing_zq.s'"},
+    "unterminated_comment": {"scope": "parse", "text": "/* never closed", "last_only": True},
+    "unclosed_paren": {"scope": "parse", "text": "lda (0x10"},
+    "unclosed_bracket": {"scope": "parse", "text": "lda [0x10"},
+    "unclosed_macro": {"scope": "parse", "text": ".macro unclosed_zq(a_zq) {"},
+    "bad_map_attribute": {"scope": "parse", "text": ".map frob_zq=1"},
+    "if_without_block": {"scope": "parse", "text": ".if 1 ; no block follows"},
+    "for_without_bound": {"scope": "parse", "text": ".for i_zq := 0 {\n}"},
+    "stray_closing_brace": {"scope": "parse", "text": "}", "top_only": True},
+    "undefined_scope_member": {"scope": "asm", "text": ".dl nosuch_zq.member_zq"},
+    "undefined_in_assign": {"scope": "asm", "text": "assign_zq := undefined_zq + 1"},
+    "undefined_in_for_bound": {"scope": "asm", "text": ".for i_zq := 0, undefined_zq {\n    nop\n}"},
+    "undefined_ips_delta": {"scope": "asm", "text": ".include_ips 'missing_zq.ips', undefined_zq"},
+    "undefined_code_lookup": {"scope": "asm", "text": "{{ undefined_zq }}"},
+    "undefined_macro_argument": {"scope": "asm", "text": ".macro one_zq(a_zq) {\n    .dw a_zq\n}\none_zq(undefined_zq)"},
     "undefined_symbol_operand": {"scope": "asm", "text": "lda.w undefined_zq"},
     "undefined_symbol_data": {"scope": "asm", "text": ".dw undefined_zq + 1"},
     "undefined_symbol_position": {"scope": "asm", "text": "*=undefined_zq"},
@@ -88,7 +103,9 @@ def applicable(klass: str, slot: dict[str, Any]) -> bool:
         return False
     if spec["scope"] == "asm" and not slot["assembled"]:
         return False
-    if klass == "too_few_macro_args" and slot["ctx"] not in ("top", "included_file"):
+    if spec.get("top_only") and slot["ctx"] not in ("top", "included_file"):
+        return False
+    if klass in ("too_few_macro_args", "undefined_macro_argument") and slot["ctx"] not in ("top", "included_file"):
         # keep the helper macro definition at file level
         return False
     return True
@@ -112,7 +129,7 @@ def gen_case(cseed: int, tier: str) -> dict[str, Any]:
     if "defines" in feats:
         defines = [("DEF0", w.choice(["0x12", "7", "0b101"])), ("DEF1", w.choice(["0", "1"])), ("DEF2", w.choice(["1", "2", "3"]))][: w.randrange(1, 4)]
     prog = progen.gen_program(w, mapping, feats, defines, size=w.choice([6, 10, 14]))
-    return {"type": "base", "prog": prog.to_record(), "seed": cseed, "copier": w.random() < 0.5, "cli_format": w.choice(["ips", "ips", "sfc"])}
+    return {"type": "base", "prog": prog.to_record(), "seed": cseed, "copier": w.random() < 0.5, "cli_format": w.choice(["ips", "ips", "sfc"]), "tier": tier}
 
 
 def plan(tier: str) -> dict[str, Any]:
@@ -137,6 +154,7 @@ def entry_spec(entry: str, prog: progen.Prog, copier: bool, cli_format: str) -> 
         spec["mapping"] = mapping
         spec["copier"] = copier and cli_format == "ips"
         spec["out"] = "out.ips" if cli_format == "ips" else "out.sfc"
+        spec["dump_symbols"] = bool(len(defines) % 2)
     return spec
 
 
@@ -304,9 +322,17 @@ def sub_cases(case: dict[str, Any], stats: Stats) -> Iterator[dict[str, Any]]:
         s0 = rng.choice(ok_slots)
         for e in ENTRIES:
             yield dict(base, spec=specs[e], insert={"class": klass, "slot": s0}, knobs={})
-        for s in ok_slots:
-            if s is s0:
-                continue
+        others = [s for s in ok_slots if s is not s0]
+        if case.get("tier") != "thorough" and len(others) > SLOTS_PER_CLASS:
+            # keep every distinct context kind, then fill up by seed
+            by_ctx: dict[str, dict[str, Any]] = {}
+            for s in others:
+                by_ctx.setdefault(s["ctx"] + str(s["assembled"]), s)
+            keep = list(by_ctx.values())
+            rest = [s for s in others if s not in keep]
+            rng.shuffle(rest)
+            others = keep + rest[: max(0, SLOTS_PER_CLASS - len(keep))]
+        for s in others:
             yield dict(base, spec=specs[rng.choice(ENTRIES)], insert={"class": klass, "slot": s}, knobs=benign_knobs(krng) if rng.random() < 0.3 else {})
     # (3) D5: failing user Writer
     twin = twin_of(prog.all_files(), prog.all_roles(), prog.mapping, [list(d) for d in prog.defines])
@@ -315,7 +341,7 @@ def sub_cases(case: dict[str, Any], stats: Stats) -> Iterator[dict[str, Any]]:
             yield dict(base, spec=specs[e], writer_fail_at=k, knobs={})
     # (4) D1/D2/D3: every crash point of every file entry point
     files, roles = prog.all_files(), out_roles(prog.all_roles())
-    for e in FILE_ENTRIES:
+    for e in ENTRIES:
         knobs = {"bufsize": krng.choice([16, 32, 64])}
         o = entries.execute_one(files, roles, specs[e], knobs, [])
         stats.add_outcome(o)
